@@ -8,18 +8,28 @@ import subprocess
 
 
 def _run(cmd, cwd, env, timeout):
-    """run with a time bound; on timeout kill the whole process group (cargo AND the test binary it spawned)"""
-    proc = subprocess.Popen(cmd, cwd=cwd, env=env, stdout=subprocess.PIPE, stderr=subprocess.STDOUT, text=True, start_new_session=True)
-    try:
-        out, _ = proc.communicate(timeout=timeout)
-        return proc.returncode, out
-    except subprocess.TimeoutExpired:
+    """run with a time bound; output goes to a file, not a pipe: a helper process that a failing test left behind
+    keeps a pipe open and would make us wait for the timeout although cargo has long exited. Afterwards (and on
+    timeout) the whole process group is killed (cargo, the test binary, stray children)."""
+    import tempfile
+    with tempfile.TemporaryFile(mode="w+", errors="replace") as fh:
+        proc = subprocess.Popen(cmd, cwd=cwd, env=env, stdout=fh, stderr=subprocess.STDOUT, stdin=subprocess.DEVNULL, start_new_session=True)
+        timed_out = False
+        try:
+            proc.wait(timeout=timeout)
+        except subprocess.TimeoutExpired:
+            timed_out = True
         try:
             os.killpg(proc.pid, signal.SIGKILL)
-        except ProcessLookupError:
+        except (ProcessLookupError, PermissionError):
             pass
-        out, _ = proc.communicate()
-        return -9, (out or "") + "\n[verif] native run timed out after %ds\n" % timeout
+        if timed_out:
+            proc.wait()
+        fh.seek(0)
+        out = fh.read()
+    if timed_out:
+        return -9, out + "\n[verif] native run timed out after %ds\n" % timeout
+    return proc.returncode, out
 
 VERIF = os.path.abspath(os.path.join(os.path.dirname(os.path.abspath(__file__)), ".."))
 TARGET = os.environ.get("VERIF_NATIVE_TARGET", os.path.join(VERIF, ".cache", "native-target"))
